@@ -64,6 +64,41 @@ def raw_histories():
     return out
 
 
+RAW_INPROC = [
+    dict(name="declared-dependency-redefined-in-process", ms=["m1", "m2"],
+         files={"aux.py": _HDR, "mod.py": _HDR + "\n\n" + _mfn("g", "x + 1") + "\n\n" +
+                _mfn("m1", "globals()['g'](x) * 10", 'cluster="vp", dependencies=[g]') + "\n\n" + _mfn("m2", "[m1(x), g(x)]")},
+         edits=[_mfn("g", "x + 2"), _mfn("g", "x + 3"), _mfn("g", "x + 1")]),
+]
+
+
+def raw_in_process(hist, root):
+    """a hand-written program; definitions are executed again, with other code, in the running process; after each of them every
+    memento function returns what an un-memoized run of the program as it is now returns"""
+    import c03
+    store = os.path.join(root, "store")
+    sub = os.path.join(root, "ip")
+    os.makedirs(sub)
+    c03.write_raw(dict(files=hist["files"]), sub, "vpk")
+    acts = [["import"]]
+    marks = []
+    for i in range(len(hist["edits"]) + 1):
+        if i > 0:
+            acts.append(["exec", "mod", hist["edits"][i - 1]])
+        for n in hist["ms"]:
+            acts += [["call", n, 2], ["unmemo", n, 2]]
+            marks.append((i, n, len(acts) - 2))
+    out = vrun.child(dict(root=sub, pkg="vpk", store=store, actions=acts))
+    if out[0] != "ok":
+        return [dict(clause="program-imports", edition=0, error=out[0])]
+    fails = []
+    for i, n, k in marks:
+        f = judge(i, n, out[k], out[k + 1])
+        if f:
+            fails.append(f)
+    return fails
+
+
 def raw_cross_process(hist, root):
     import c03
     store = os.path.join(root, "store")
@@ -153,6 +188,13 @@ def event_actions(prev, cur):
             for t in sorted(used):
                 if amap.get(t, t) == name and t in cur["defs"] and cur["defs"][t]["where"] == b["where"]:
                     acts.append(["exec", b["where"], "a_%s = %s\n" % (t, name)])
+    # alias names bound to another function by this edit (the functions themselves are unchanged)
+    pmap, cmap = prev.get("alias_map", {}), cur.get("alias_map", {})
+    for t in sorted(set(pmap) | set(cmap)):
+        if pmap.get(t, t) != cmap.get(t, t) and t in cur["defs"] and cmap.get(t, t) in cur["defs"]:
+            line = ["exec", cur["defs"][t]["where"], "a_%s = %s\n" % (t, cmap.get(t, t))]
+            if line not in acts:
+                acts.append(line)
     return acts
 
 
@@ -319,6 +361,23 @@ def corpus():
                     "m1": _fn("memento", [["h1", "bare"], ["h1", "alias"], ["h2", "bare"]])}, order=["h1", "h2", "m1"])
     b1 = json.loads(json.dumps(b0)); b1["alias_map"] = {"h1": "h2"}
     out.append([b0, b1])
+    # two plain helpers reached through alias names only; one edit makes the two names change places
+    s0 = dict(defs={"h1": _fn("plain", []), "h2": _fn("plain", [], const=2), "m1": _fn("memento", [["h1", "alias"], ["h2", "alias"]]),
+                    "m2": _fn("memento", [["m1", "bare"]])}, order=["h1", "h2", "m1", "m2"])
+    s1 = json.loads(json.dumps(s0)); s1["alias_map"] = {"h1": "h2", "h2": "h1"}
+    s2 = json.loads(json.dumps(s0))
+    out.append([s0, s1, s2])
+    # ... the same for two memento functions
+    t0 = dict(defs={"m1": _fn("memento", []), "m2": _fn("memento", [], const=2), "m3": _fn("memento", [["m1", "alias"], ["m2", "alias"]])},
+              order=["m1", "m2", "m3"])
+    t1 = json.loads(json.dumps(t0)); t1["alias_map"] = {"m1": "m2", "m2": "m1"}
+    out.append([t0, t1])
+    # a hidden call two frames below a function that names the hidden callee itself: the caller in between is refused all the
+    # same (its version does not cover the callee), whatever its own caller declares; the callee is edited
+    u0 = dict(defs={"m1": _fn("memento", []), "m2": _fn("memento", [["m1", "hidden"]]), "m3": _fn("memento", [["m2", "bare"], ["m1", "bare"]])},
+              order=["m1", "m2", "m3"])
+    u1 = json.loads(json.dumps(u0)); u1["defs"]["m1"]["const"] = 6
+    out.append([u0, u1])
     # constants of nested code objects: the string constant of a generator expression, of a helper and of a memento function
     g0 = dict(defs={"h1": _fn("plain", [], gx="x"), "m1": _fn("memento", [["h1", "bare"]], gx="x"), "m2": _fn("memento", [["m1", "bare"]])},
               order=["h1", "m1", "m2"])
@@ -340,7 +399,9 @@ def main(chk, replay=None):
             if replay.get("delivery") == "in-process":
                 fails = in_process(replay["editions"], root)
             else:
-                if replay.get("raw_history"):
+                if replay.get("raw_in_process"):
+                    fails = raw_in_process([h for h in RAW_INPROC if h["name"] == replay["raw_in_process"]][0], root)
+                elif replay.get("raw_history"):
                     fails = raw_cross_process([h for h in raw_histories() if h["name"] == replay["raw_history"]][0], root)
                 else:
                     fails, _ = cross_process(replay["editions"], root)
@@ -402,6 +463,20 @@ def main(chk, replay=None):
             chk.violation({"what": "stale result (cross-process, hand-written history %s): %s returns %s but the current program computes %s" % (
                 hist["name"], f.get("fn"), json.dumps(f.get("memoized")), json.dumps(f.get("unmemoized"))),
                 "class": {"clause": f["clause"], "delivery": "cross-process", "raw": hist["name"]}, "raw_history": hist["name"], "observed": rf[:2]})
+    for hist in RAW_INPROC:
+        root = tempfile.mkdtemp(prefix="c01q_", dir=chk.tmpdir())
+        try:
+            rf = raw_in_process(hist, root)
+        finally:
+            shutil.rmtree(root, ignore_errors=True)
+        chk.case(["raw-in-process", hist["name"]], nontrivial=True, sample=dict(kind="hand-written program edited in the running process", name=hist["name"]))
+        chk.count("raw-in-process-edits", len(hist["edits"]))
+        if rf and reported < 4:
+            reported += 1
+            f = rf[0]
+            chk.violation({"what": "stale result (in-process, hand-written program %s): %s returns %s but the current program computes %s" % (
+                hist["name"], f.get("fn"), json.dumps(f.get("memoized")), json.dumps(f.get("unmemoized"))),
+                "class": {"clause": f["clause"], "delivery": "in-process", "raw": hist["name"]}, "raw_in_process": hist["name"], "observed": rf[:2]})
     seeds = [rng.randrange(1 << 30) for _ in range(nprog)]
     with concurrent.futures.ThreadPoolExecutor(max_workers=8) as ex:
         results = list(ex.map(work_corpus, corpus())) + list(ex.map(work, seeds))
